@@ -1,11 +1,29 @@
 /-
   Props/C04.lean — the encoder only emits text that its own decoder accepts.
-  (The line-level round-trip lemmas shared with C02/C03 are in Lemmas/EncodeLines.lean.)
+
+  Proved here (helper lemmas in Lemmas/{Digits,EncodeLines,CodecLaws,Rt*}.lean):
+  * the shape of the output (`encode_shape`, `headers_recognised`, `block_starts_with_header`) and that reading the
+    text back hands the framing driver exactly its end-trimmed lines (`encoded_text_lines`);
+  * `version_line_parses`;
+  * per block, for the six record sections: the block is its header line followed by the listed record lines
+    (`record_blocks_are_lines`), and every record line is neither a header nor skipped and is accepted by that
+    section's parser in whatever state (`record_lines_accepted_metadata`, `…_colours`: unconditional;
+    `…_editor`, `…_difficulty`, `…_general`, `…_events`: for every lawful number codec);
+  * `lines_dispatched`: read back through the framing driver, each block's record lines reach exactly that
+    section's parser, in order — for any decoder;
+  * `record_blocks_accepted_and_recovered`: the file-level statement for the six record blocks.
+  * `hitobject_lines_accepted_partial`: the lines of circles, spinners and hold notes are LF-free record lines accepted by
+    `parse_hit_objects` in any state, and the same kind of object comes back (for every lawful codec).
+  Still only a statement (evaluated by the `lines` oracle and the `enc` correspondence): slider lines, timing-point lines,
+  and hence that the whole `[TimingPoints]` and `[HitObjects]` blocks are LF-free record lines accepted by their parsers
+  (`list_block_lines_accepted_statement`).
 -/
 import RosuModel.Model.Encode
 import RosuModel.Props.C10
+import RosuModel.Lemmas.RtFile
+import RosuModel.Lemmas.RtObjects
 namespace Rosu.C04
-open Rosu Encode
+open Rosu Encode EncodeLines C11
 
 variable {F P : Type} [Scalar F] [Scalar P] [Cvt P F] [Trig F] [Trig P]
 
@@ -25,9 +43,10 @@ each introduced by a blank line and starting with its header. -/
 theorem encode_shape (m : Beatmap F P) (t : Str) (h : encode m = .ok t) :
     ∃ timing objects,
       encodeTimingPoints m = .ok timing ∧ encodeHitObjects m = .ok objects ∧
-      t = str "osu file format v" ++ showInt m.formatVersion ++ nl ++
-        nl ++ encodeGeneral m ++ nl ++ encodeEditor m ++ nl ++ encodeMetadata m ++ nl ++ encodeDifficulty m ++
-        nl ++ encodeEvents m ++ nl ++ timing ++ nl ++ encodeColors m ++ nl ++ objects := by
+      t = str "osu file format v" ++ showInt m.formatVersion ++ Encode.nl ++
+        Encode.nl ++ encodeGeneral m ++ Encode.nl ++ encodeEditor m ++ Encode.nl ++ encodeMetadata m ++ Encode.nl ++
+        encodeDifficulty m ++ Encode.nl ++ encodeEvents m ++ Encode.nl ++ timing ++ Encode.nl ++ encodeColors m ++
+        Encode.nl ++ objects := by
   unfold encode at h
   cases ht : encodeTimingPoints m with
   | error e => simp [ht, bind, Except.bind] at h
@@ -49,9 +68,164 @@ theorem block_starts_with_header (m : Beatmap F P) :
 the text's own lines with trailing whitespace removed (C10's `utf8_lines`; the text starts with `o`,
 not with a byte-order mark). -/
 theorem encoded_text_lines {σ : Type} (D : LineDecoder σ) (t : Str) (h : t.head? ≠ some (Char.ofNat 0xFEFF)) :
-    decodeBytes D (utf8Encode t) = .ok (frame D ((textLines t).map trimEnd)) := by
-  have hb := C10.fromBom_utf8Encode t h
-  rw [C10.decodeBytes_eq, hb, C10.fromBom_none_utf8 _ hb, List.drop_zero, C10.utf8_lines]
-  rfl
+    decodeBytes D (utf8Encode t) = .ok (frame D ((textLines t).map trimEnd)) :=
+  RtFile.decodeBytes_utf8_text D t h
+
+/-- **version_line_parses**: the first line is read back as exactly the map's format version (any `i32` within
+the decoder's limit ±(2³¹−1); the decoder only ever produces such a version, or 14). -/
+theorem version_line_parses (v : Int) (hlo : -i32Max ≤ v) (hhi : v ≤ i32Max) :
+    tryVersionFromLine (str "osu file format v" ++ showInt v) = .found v :=
+  Rosu.version_line_parses v hlo hhi
+
+example : tryVersionFromLine (str "osu file format v" ++ showInt (-7)) = .found (-7) :=
+  version_line_parses (-7) (by decide) (by decide)
+
+/-- **the six record blocks are lines**: each is its header line followed by the record lines listed in
+Lemmas/Rt*.lean, every line LF-terminated. -/
+theorem record_blocks_are_lines (m : Beatmap F P) :
+    encodeGeneral m = unlines (str "[General]" :: RtGeneral.generalLines m.general (RtGeneral.sampleSetOf m.controlPoints)) ∧
+    encodeEditor m = unlines (str "[Editor]" :: RtEditor.editorLines m.editor) ∧
+    encodeMetadata m = unlines (str "[Metadata]" :: RtMetadata.metadataLines m.metadata) ∧
+    encodeDifficulty m = unlines (str "[Difficulty]" :: RtDifficulty.difficultyLines m.difficulty) ∧
+    encodeEvents m = unlines (str "[Events]" :: RtEvents.eventLines m.events) ∧
+    encodeColors m = unlines (str "[Colours]" :: RtColours.colourLines m.colors) :=
+  ⟨RtGeneral.encodeGeneral_eq m, RtEditor.encodeEditor_eq m, RtMetadata.encodeMetadata_eq m,
+   RtDifficulty.encodeDifficulty_eq m, RtEvents.encodeEvents_eq m, RtColours.encodeColors_eq m⟩
+
+/-- such a text is cut back into exactly those lines, and the reader's end-trim removes the terminators. -/
+theorem lines_of_block (ls : List Str) (h : ∀ l ∈ ls, '\n' ∉ l) : (textLines (unlines ls)).map trimEnd = ls.map trimEnd :=
+  lines_of_unlines ls h
+
+section
+variable {RF : F → Prop} {RP : P → Prop}
+
+/-- **[Metadata]** every record line of the block is a record line (not a header, not skipped — whatever the texts
+contain) and is accepted by `parse_metadata` in any state. No number law is needed. -/
+theorem record_lines_accepted_metadata (d : Metadata) (h : RtMetadata.RepMetadata d) :
+    ∀ r ∈ RtMetadata.decodedLines d, RecordLine r ∧ ∀ st, (parseMetadata st r).2 = true :=
+  fun r hr => ⟨RtMetadata.metadata_lines_are_records d h r hr, RtMetadata.metadata_lines_accepted d h r hr⟩
+
+/-- **[Colours]** likewise for `Combo{i}` and custom colour lines. -/
+theorem record_lines_accepted_colours (c : Colors) (h : RtColours.RepColors c) :
+    ∀ r ∈ RtColours.decodedLines c, RecordLine r ∧ ∀ st, (parseColors st r).2 = true :=
+  RtColours.colour_lines_spec c h
+
+/-- **[Editor]** for every lawful codec. -/
+theorem record_lines_accepted_editor (LF : CodecLaws F RF) (e : Editor F) (h : RtEditor.RepEditor RF e) :
+    ∀ r ∈ RtEditor.decodedLines e, RecordLine r ∧ ∀ st : Editor F, (parseEditor st r).2 = true :=
+  RtEditor.editor_lines_spec LF e h
+
+/-- **[Difficulty]** for every lawful pair of codecs. -/
+theorem record_lines_accepted_difficulty (LF : CodecLaws F RF) (LP : CodecLaws P RP) (d : Difficulty F P)
+    (h : RtDifficulty.RepDifficulty RF RP d) :
+    ∀ r ∈ RtDifficulty.decodedLines d, RecordLine r ∧ ∀ st : DifficultyState F P, (parseDifficulty st r).2 = true :=
+  RtDifficulty.difficulty_lines_spec LF LP d h
+
+/-- **[General]** for every lawful codec (and `AudioLeadIn` printed like an integer). -/
+theorem record_lines_accepted_general (LI : IntPrintLaw F) (LP : CodecLaws P RP) (g : GeneralState F P) (ss : SampleBank)
+    (h : RtGeneral.RepGeneral RP g) :
+    ∀ r ∈ RtGeneral.decodedLines g ss, RecordLine r ∧ ∀ st : GeneralState F P, (parseGeneral st r).1 = .ok () := by
+  intro r hr
+  obtain ⟨h1, h2⟩ := RtGeneral.general_lines_spec LI LP g ss h r hr
+  refine ⟨h1, fun st => ?_⟩
+  have := h2 st
+  simp only [RtGeneral.generalStep] at this
+  cases hp : (parseGeneral st r).1 with
+  | ok u => rfl
+  | error e => rw [hp] at this; cases this
+
+/-- **[Events]** background and break lines, for every lawful codec. -/
+theorem record_lines_accepted_events (LF : CodecLaws F RF) (e : Events F) (h : RtEvents.RepEvents RF e) :
+    ∀ r ∈ RtEvents.decodedLines e, RecordLine r ∧ ∀ st : Events F, (parseEvents st r).2 = true :=
+  RtEvents.event_lines_spec LF e h
+
+end
+
+/-- **lines_dispatched** (no line is dropped or handed to another section): for any decoder, framing the file's
+lines sets the version from the first line and folds each block's record lines, in order, through exactly that
+section's step function. -/
+theorem lines_dispatched {σ : Type} (Dc : LineDecoder σ) (v : Int) (hlo : -i32Max ≤ v) (hhi : v ≤ i32Max)
+    (G E M D Ev T C H : List Str)
+    (hG : ∀ r ∈ G, RecordLine r) (hE : ∀ r ∈ E, RecordLine r) (hM : ∀ r ∈ M, RecordLine r) (hD : ∀ r ∈ D, RecordLine r)
+    (hEv : ∀ r ∈ Ev, RecordLine r) (hT : ∀ r ∈ T, RecordLine r) (hC : ∀ r ∈ C, RecordLine r) (hH : ∀ r ∈ H, RecordLine r) :
+    frame Dc (RtFile.fileLines v G E M D Ev T C H) =
+      H.foldl (Dc.step .hitObjects) (C.foldl (Dc.step .colors) (T.foldl (Dc.step .timingPoints)
+        (Ev.foldl (Dc.step .events) (D.foldl (Dc.step .difficulty) (M.foldl (Dc.step .metadata)
+          (E.foldl (Dc.step .editor) (G.foldl (Dc.step .general) (Dc.create v)))))))) :=
+  RtFile.frame_fileLines Dc v hlo hhi G E M D Ev T C H hG hE hM hD hEv hT hC hH
+
+example : (frame recorder (RtFile.fileLines 14 [str "Mode: 1"] [] [str "Title:", str "Artist: [General]"] [] [] [] [] [])).calls.reverse =
+    [(.general, str "Mode: 1"), (.metadata, str "Title:"), (.metadata, str "Artist: [General]")] := by decide
+
+section
+variable {RF : F → Prop} {RP : P → Prop}
+
+/-- **record_blocks_accepted_and_recovered** — the file-level statement for the six record blocks. For a map whose
+record sections are representable, under the codec laws, and whose two list blocks consist of LF-terminated record
+lines: the encoded text is the version line and the eight blocks as lines; read back from its UTF-8 bytes through the
+reader and the framing driver with the `Beatmap` decoder, reading succeeds and the decoder state holds exactly the
+map's record fields (format version, general, editor, metadata, difficulty, events, colours — on the preserved
+view). That every one of those record lines is accepted is `record_lines_accepted_*`. -/
+theorem record_blocks_accepted_and_recovered (LF : CodecLaws F RF) (LP : CodecLaws P RP) (LI : IntPrintLaw F)
+    (m : Beatmap F P) (hm : RtFile.RepRecords RF RP m) (t : Str) (T H : List Str) (h : encode m = .ok t)
+    (hT : encodeTimingPoints m = .ok (unlines (str "[TimingPoints]" :: T)))
+    (hH : encodeHitObjects m = .ok (unlines (str "[HitObjects]" :: H)))
+    (sT : RtFile.ListBlockShape T) (sH : RtFile.ListBlockShape H) :
+    t = unlines (RtFile.fileLines m.formatVersion (RtGeneral.generalLines m.general (RtGeneral.sampleSetOf m.controlPoints))
+      (RtEditor.editorLines m.editor) (RtMetadata.metadataLines m.metadata) (RtDifficulty.difficultyLines m.difficulty)
+      (RtEvents.eventLines m.events) T (RtColours.colourLines m.colors) H) ∧
+    ∃ st : BeatmapState F P, decodeBytes beatmapDecoder (utf8Encode t) = .ok st ∧
+      RtFile.recView st = RtFile.preservedRecords m :=
+  ⟨RtFile.encode_eq_unlines m t T H h hT hH, RtFile.file_record_roundtrip LF LP LI m hm t T H h hT hH sT sH⟩
+
+end
+
+section
+variable {RF : F → Prop} {RP : P → Prop}
+
+/-- **hitobject_lines_accepted_partial** — circles, spinners and hold notes (sliders missing). Under the codec laws, the
+line `encode_hit_objects` writes for such an object (representable: integral coordinates within ±131072, times within
+the parse limit, combo offset 0..7, sample file name without `: , |`, line feed or `//` and not ending in white space)
+is LF-terminated and LF-free, is a record line (neither header nor skipped), and is accepted by `parse_hit_objects`
+in whatever state; and the same kind of object comes back (`same_record_kind`): the state grows by exactly one object
+of that kind. -/
+theorem hitobject_lines_accepted_partial (LF : CodecLaws F RF) (LP : CodecLaws P RP) (mode : GameMode) (h : HitObject F P)
+    (st : HOCore F P) :
+    (∀ c, h.kind = .circle c → RtObjects.RepCircle RF RP mode h c →
+      ∃ l k, encodeObject mode h = .ok (l ++ EncodeLines.nl) ∧ '\n' ∉ l ∧ RecordLine (trimEnd l) ∧
+        parseHitObjectLine mode st (trimEnd l) = (RtObjects.pushed st 1 h.startTime (.circle k) (RtObjects.decodedSamples h.samples mode), true)) ∧
+    (∀ sp, h.kind = .spinner sp → RtObjects.RepSpinner RF RP mode h sp →
+      ∃ l k, encodeObject mode h = .ok (l ++ EncodeLines.nl) ∧ '\n' ∉ l ∧ RecordLine (trimEnd l) ∧
+        parseHitObjectLine mode st (trimEnd l) = (RtObjects.pushed st 8 h.startTime (.spinner k) (RtObjects.decodedSamples h.samples mode), true)) ∧
+    (∀ ho, h.kind = .hold ho → RtObjects.RepHold RF RP mode h ho →
+      ∃ l k, encodeObject mode h = .ok (l ++ EncodeLines.nl) ∧ '\n' ∉ l ∧ RecordLine (trimEnd l) ∧
+        parseHitObjectLine mode st (trimEnd l) = (RtObjects.pushed st 128 h.startTime (.hold k) (RtObjects.decodedSamples h.samples mode), true)) := by
+  refine ⟨fun c hk hr => ?_, fun sp hk hr => ?_, fun ho hk hr => ?_⟩
+  · obtain ⟨h1, h2, h3, h4⟩ := RtObjects.circle_line_roundtrip LF LP mode h c hk hr st
+    exact ⟨_, _, h1, h2, h3, h4⟩
+  · obtain ⟨h1, h2, h3, h4⟩ := RtObjects.spinner_line_roundtrip LF LP mode h sp hk hr st
+    exact ⟨_, _, h1, h2, h3, h4⟩
+  · obtain ⟨h1, h2, h3, h4⟩ := RtObjects.hold_line_roundtrip LF LP mode h ho hk hr st
+    exact ⟨_, _, h1, h2, h3, h4⟩
+
+/-- non-vacuity (toy codec): the circle line `256,-192,1000,53,2,2:3:0:0:`. -/
+example (st : HOCore ZC ZC) := (hitobject_lines_accepted_partial ZC.laws ZC.laws GameMode.osu RtObjects.sampleCircleObj st).1
+  RtObjects.sampleCircle rfl RtObjects.sampleCircle_rep
+
+end
+
+/-- the remainder of C04, not yet a theorem: for a decoded map (and lawful codecs), the `[TimingPoints]` and
+`[HitObjects]` blocks are LF-terminated record lines, each accepted by its section's parser in the state the
+preceding lines leave. -/
+def list_block_lines_accepted_statement : Prop :=
+  ∀ (F P : Type) [Scalar F] [Scalar P] [Cvt P F] [Trig F] [Trig P] (RF : F → Prop) (RP : P → Prop),
+    CodecLaws F RF → CodecLaws P RP →
+    ∀ (x : List Str) (st : BeatmapState F P) (m : Beatmap F P) (timing objects : Str),
+      frame beatmapDecoder x = st → st.finish = .ok m →
+      encodeTimingPoints m = .ok timing → encodeHitObjects m = .ok objects →
+      ∃ T H, timing = unlines (str "[TimingPoints]" :: T) ∧ objects = unlines (str "[HitObjects]" :: H) ∧
+        RtFile.ListBlockShape T ∧ RtFile.ListBlockShape H ∧
+        Accepts (fun s l => ((parseTimingPoints s l).2, (parseTimingPoints s l).1.isOk)) st.hitObjects.timingPoints (T.map trimEnd) ∧
+        Accepts (parseHitObjectLine m.general.mode) ({} : HOCore F P) (H.map trimEnd)
 
 end Rosu.C04
